@@ -14,6 +14,7 @@ def run(ctx):
     ctx.run(M.nul2_bitmap_ones_fill_whole_bytes_only)
     ctx.run(M.nul5_builder_bitmap_written_bitwise)
     ctx.run(PT.flw11_digest_when_modified)
+    ctx.run(O.who6_column_handles_are_never_removed)
     return ctx.finish(
         'Static rules on the compaction path, which re-encodes every column through a second decode '
         'routine the query path never uses: that routine handles every codec op and every '
